@@ -20,6 +20,7 @@ import (
 	"time"
 
 	"github.com/lindb/lindb/verif/internal/core"
+	"github.com/lindb/lindb/verif/internal/racefilter"
 )
 
 type batchTime struct {
@@ -31,6 +32,7 @@ type batch struct {
 	kind     string
 	from, to int
 	asan     bool
+	race     bool // kind CR: the child is the -race build of the engine
 }
 
 func main() {
@@ -45,13 +47,19 @@ func main() {
 		"S = a real kv.Store (store manager, flusher, snapshot, optional compaction and reopen) with 1-12 overlapping flushes; " +
 		"SL = flushes into file numbers re-issued after a reopen over leftovers of flushes that never committed; a quarter of the T tables (a sixth of the M/VR tables) " +
 		"are built at a path where a longer earlier output (complete / abandoned / torn) already lies; " +
-		"V/VR = version range lookups on file metas alone and on real files in arbitrary levels, through the manifest and back. " +
+		"V/VR = version range lookups on file metas alone and on real files in arbitrary levels, through the manifest and back; " +
+		"C = 1-4 table files (offset widths 1-4 bytes by case index, values of differing sizes) committed to a family version, every reader opened ONCE through the table cache and checked sequentially, " +
+		"then 8-16 goroutines each doing a fixed number of operations on those reader objects (Get of present and absent keys, new iterators, merged iterators, Snapshot.Load on one shared snapshot, " +
+		"Load/FindReaders/GetReader on snapshots of their own); CR = the same under the race detector. " +
 		"A case is non-trivial when present lookups, absent lookups and an iteration (T), >=1 merged entry (M), present and absent probes (S, VR) " +
-		"or >=2 file ranges (V) were really checked; distinct = distinct hash of key sets, sizes and case parameters")
+		"or >=2 file ranges (V) were really checked, or (C) present and absent lookups, a full iteration, a Load and at least one lookup begun while another goroutine was inside the same reader; distinct = distinct hash of key sets, sizes and case parameters")
 	c.Assume("the harness map/sorted-slice model and its value generator are right; value bytes are a deterministic function of (salt,key,size)")
 	c.Assume("callers keep the StreamWriter protocol Prepare-Write*-Commit and do not interleave Add between Prepare and Commit (lindb's own callers do)")
 	c.Assume("a rejected (not ascending) key is one that is ignored: lindb's builder logs it and returns a nil error by design; the oracle requires that nothing else changes, not that an error comes back")
 	c.Assume("tables stay below 4 GiB (the format stores 32-bit offsets)")
+	c.Assume("a table reader is immutable after it was opened and is shared by every snapshot of its family (table cache), so any number of goroutines may call Get / Iterator on it and Load on one snapshot at the same time; " +
+		"FindReaders/GetReader of ONE snapshot object are not called concurrently (they record the readers to release) - every goroutine takes its own snapshot for them")
+	c.Assume("race detector: a report decides only when the top lindb frame of one of the two accesses lies in kv/table, kv/version or pkg/encoding; the plain oracle does not depend on it")
 	c.Assume("lindb's convention 'empty value = nothing to store': kv.Flusher.Commit abandons a flush whose values are ALL empty (modelled as nothing flushed, " +
 		"the version must not change), and a compaction may drop a key whose merged value is empty (compactFlusher.Add skips it; the stream writer path keeps it as empty). " +
 		"Empty values inside a flush that also has value bytes are stored and checked exactly; the table builder/reader themselves are checked with all-empty tables in the T cases")
@@ -61,6 +69,13 @@ func main() {
 	nS := c.Pick(168, 8_000)
 	nV := c.Pick(300, 20_000)
 	nVR := c.Pick(160, 6_000)
+	nC := c.Pick(36, 1_200)
+	nCR := c.Pick(6, 60)
+	raceBin := os.Getenv("VERIF_RACE_BIN")
+	if raceBin == "" {
+		c.Inconclusive("no race variant of the engine available (VERIF_RACE_BIN unset): the concurrent-reader phase cannot run under the race detector")
+		nCR = 0
+	}
 	var batches []batch
 	split := func(kind string, n, per int) {
 		for from := 0; from < n; from += per {
@@ -71,7 +86,9 @@ func main() {
 			batches = append(batches, batch{kind: kind, from: from, to: to})
 		}
 	}
-	// store cases are the slowest per case: start them first
+	// concurrent-reader cases use several cores each and store cases are the slowest per case: start them first
+	split("CR", nCR, c.Pick(2, 6))
+	split("C", nC, c.Pick(6, 40))
 	split("S", nS, c.Pick(12, 200))
 	split("SR", c.Pick(6, 60), c.Pick(6, 20))
 	split("SL", c.Pick(32, 1200), c.Pick(8, 100))
@@ -88,7 +105,7 @@ func main() {
 			perKind := map[string]int{}
 			for i := range batches {
 				perKind[batches[i].kind]++
-				if perKind[batches[i].kind]%8 == 1 {
+				if perKind[batches[i].kind]%8 == 1 && batches[i].kind != "CR" {
 					batches[i].asan = true
 				}
 			}
@@ -112,9 +129,22 @@ func main() {
 		if b.asan {
 			bin = asanBin
 		}
+		env := []string{"LOG_LEVEL=fatal", "GOMAXPROCS=2", "GOTRACEBACK=all", "ASAN_OPTIONS=detect_leaks=0"}
+		if b.kind == "C" || b.kind == "CR" {
+			// the goroutines of a concurrent-reader case must really run side by side
+			env[1] = "GOMAXPROCS=8"
+		}
+		if b.kind == "CR" {
+			bin = raceBin
+			env = append(env, "GORACE=halt_on_error=0 exitcode=0 log_path="+filepath.Join(dir, "race"))
+		}
 		t0 := time.Now()
 		res := core.RunChild(bin, []string{c.Tier, "child", b.kind, strconv.Itoa(b.from), strconv.Itoa(b.to), dir, resFile},
-			[]string{"LOG_LEVEL=fatal", "GOMAXPROCS=2", "GOTRACEBACK=all", "ASAN_OPTIONS=detect_leaks=0"}, timeout, logFile)
+			env, timeout, logFile)
+		raceOut := ""
+		if b.kind == "CR" {
+			raceOut = racefilter.ReadLogs(filepath.Join(dir, "race"), logFile)
+		}
 		var r rec
 		data, err := os.ReadFile(resFile)
 		if err == nil {
@@ -122,6 +152,16 @@ func main() {
 		}
 		mu.Lock()
 		defer mu.Unlock()
+		if b.kind == "CR" {
+			reports := racefilter.Parse(raceOut)
+			c.Count("race_reports_total", len(reports))
+			c.Count("race_batches_run", 1)
+			for _, rep := range racefilter.Attributed(reports, []string{"kv/table/", "kv/version/", "pkg/encoding/"}) {
+				c.Violation("C15/data-race-between-concurrent-readers/"+strings.Join(rep.TopFrames, "+"),
+					fmt.Sprintf("CR[%d,%d): the race detector reports a data race between goroutines that only read shared table readers / snapshots; top lindb frames %v",
+						b.from, b.to, rep.TopFrames), map[string]interface{}{"report": rep.Text, "last_case": lastCaseLine(logFile)})
+			}
+		}
 		durations = append(durations, batchTime{fmt.Sprintf("%s[%d,%d) asan=%v", b.kind, b.from, b.to, b.asan), time.Since(t0).Seconds()})
 		if err != nil || !r.Done {
 			lastCase := lastCaseLine(logFile)
@@ -176,6 +216,20 @@ func main() {
 		"tables_built_over_longer_predecessor_complete": 20, "tables_built_over_longer_predecessor_abandoned": 20,
 		"tables_built_over_longer_predecessor_partial": 20, "tables_built_over_longer_predecessor_slightly-longer": 20,
 		"flushes_over_longer_leftover": 5,
+		// concurrent readers of shared reader objects
+		"conc_cases_run": int64(nC) * 9 / 10, "conc_cases_with_several_files": int64(nC) / 4,
+		"conc_tables_offset_width_w1": 3, "conc_tables_offset_width_w2": 3, "conc_tables_offset_width_w3": 3, "conc_tables_offset_width_w4": 1,
+		"conc_gets_present": int64(nC) * 10000, "conc_gets_absent": int64(nC) * 2000,
+		"conc_gets_begun_while_another_goroutine_was_inside_the_same_reader": int64(nC) * 2000,
+		"conc_iterations_full": int64(nC) * 8, "conc_iterations_begun_while_another_goroutine_was_inside_the_same_reader": int64(nC) * 20,
+		"conc_snapshot_loads_on_the_shared_snapshot": int64(nC) * 2000, "conc_findreaders_lookups": int64(nC) * 1000,
+		"conc_merged_iterations": int64(nC) * 4, "conc_snapshot_readers_identical_to_cached_reader": int64(nC) * 100,
+	}
+	if nCR > 0 {
+		need["race_conc_cases_run"] = int64(nCR) * 9 / 10
+		need["race_batches_run"] = 1
+		need["race_conc_gets_begun_while_another_goroutine_was_inside_the_same_reader"] = int64(nCR) * 200
+		need["race_conc_snapshot_loads_on_the_shared_snapshot"] = int64(nCR) * 200
 	}
 	if !c.Quick() {
 		need["tables_with_value_ge_1MiB"] = 20
@@ -202,6 +256,7 @@ func main() {
 	c.Set("slowest_batches", durations)
 	c.Set("batches", len(batches))
 	c.Set("asan_variant", asanBin != "")
+	c.Set("race_variant", raceBin != "")
 	c.Finish()
 }
 
@@ -348,6 +403,10 @@ func childMain(args []string) {
 			runVersionMetaCase(cc)
 		case "VR":
 			runVersionRealCase(cc)
+		case "C":
+			runConcCase(cc, false)
+		case "CR":
+			runConcCase(cc, true)
 		default:
 			fmt.Println("HARNESS-ERROR unknown kind", kind)
 			os.Exit(3)
